@@ -2,7 +2,7 @@
 # usage: tools/try_mutation.sh <patch.diff> <check args...>   e.g.  tools/try_mutation.sh seeded/x/patch.diff C06 quick --runs 64000
 # Applies the patch to /repo (working tree only), runs ./check, reverts. Never commits.
 set -u
-patch="$1"; shift
+patch="$(realpath "$1")"; shift
 cd /repo || exit 2
 if ! git diff --quiet; then echo "repo working tree not clean" >&2; exit 2; fi
 if ! git apply --3way "$patch" 2>/tmp/try_mut.err && ! git apply "$patch" 2>>/tmp/try_mut.err; then
